@@ -75,8 +75,8 @@ def lock_regions(fn, lock_names):
 
 
 def check(ctx, rep):
-    rep.rule('R03.a', 'App::update takes the model from a write guard of the core\'s model lock, App::view from a read guard', floor=3)
-    rep.rule('R03.b', 'inside a model write-lock region only expect/deref_mut and one update are called; the guard is released before anything else runs', floor=2)
+    rep.rule('R03.a', 'App::update takes the model from a write guard of the core\'s model lock, App::view from a read guard', floor=2)
+    rep.rule('R03.b', 'inside a model write-lock region only expect/deref_mut and one update are called; the guard is released before anything else runs', floor=1)
     rep.rule('R03.c', 'every carrier of the Event parameter is a FIFO channel endpoint or tabled; events move directly from receive to update', floor=10)
     rep.rule('R03.d', 'no unsafe block or unsafe impl in the runtime crates', floor=4)
     rep.rule('R03.e', 'no event value is dropped on a normal path (linear rule of C01, restricted to events)', floor=1)
@@ -132,8 +132,8 @@ def check(ctx, rep):
                 for o in src)
             rep.expect('R03.a', from_guard, key, '&model comes from a guard of the model lock',
                        '%s calls App::view with a model that does not come from a guard of the model lock' % f.where(bb))
-    if n_up < 2:
-        rep.bad('R03.a', 'update-sites', 'expected App::update in Core::process_event and Core::process, found %d site(s)' % n_up)
+    if n_up < 1:
+        rep.bad('R03.a', 'update-sites', 'no call of App::update found in crux_core (rule needs review)')
 
     # R03.c carriers
     for p, adt in sorted(core.adts.items()):
